@@ -341,6 +341,7 @@ func (v *FnVC) storeAddr(st *State, a *Addr, val Val, pos token.Pos) {
 
 // frameCheck: a store must hit memory allocated by this call or named in modifies.
 func (v *FnVC) frameCheck(kind, heap string, ref *Term, pos token.Pos) {
+	v.loopFrameCheck(heap, ref, nil, pos)
 	if v.modAll {
 		return
 	}
@@ -1448,6 +1449,8 @@ func (v *FnVC) localByName(name string, l *Loop, st *State) (Val, bool) {
 func (v *FnVC) loopHead(l *Loop, pre *State, reach *Term) *State {
 	ls := &loopState{pre: pre.clone()}
 	v.loopInfo[l] = ls
+	v.curLoopState = ls
+	defer func() { v.curLoopState = nil }()
 	ln := v.loopName(l)
 	if l.Spec == nil {
 		specErr("loop %d (line %d, block %q) has no invariant block in the contract", l.Ordinal, l.Line, l.Label)
@@ -1466,7 +1469,7 @@ func (v *FnVC) loopHead(l *Loop, pre *State, reach *Term) *State {
 			continue
 		}
 		for k := range bs {
-			if tg.assigned[k] {
+			if _, exists := pre.vars[k]; tg.assigned[k] && exists {
 				k := k
 				preRef := SRef(pre.vars[k])
 				preAlloc := pre.alloc
@@ -1531,6 +1534,19 @@ func (v *FnVC) loopHead(l *Loop, pre *State, reach *Term) *State {
 			h.vars[key] = v.fresh(key+"@"+ln, sortOf(typ))
 		}
 	}
+	{
+		hv := map[string]bool{}
+		for _, k := range hkeys {
+			hv[k] = true
+		}
+		if tg.alloc || len(hv) > 0 {
+			if tg.alloc {
+				v.assumeClosure(h, reach, nil)
+			} else {
+				v.assumeClosure(h, reach, hv)
+			}
+		}
+	}
 	ls.head = h.clone()
 	envH := v.invEnv(l, h, ls)
 	for _, c := range l.Spec.Invariants {
@@ -1538,6 +1554,9 @@ func (v *FnVC) loopHead(l *Loop, pre *State, reach *Term) *State {
 	}
 	for _, a := range autos {
 		v.assume(reach, a.f(h), "auto-inv")
+	}
+	for _, u := range l.Spec.Uses {
+		v.useLemma(envH, u, reach)
 	}
 	ls.autos = nil
 	for _, a := range autos {
@@ -1553,6 +1572,26 @@ func (v *FnVC) loopHead(l *Loop, pre *State, reach *Term) *State {
 
 // frameAssume relates a havocked heap to its pre-loop value.
 func (v *FnVC) frameAssume(guard *Term, heap, srt string, nh, oldH *Term, pre *State, tg *loopTargets) {
+	defer func() {
+		// remember the exception set so that every store in the body is checked against it
+		if strings.HasPrefix(heap, "HS_") && !tg.noBase[heap] && v.curLoopState != nil {
+			lf := &loopFrame{alloc: pre.alloc}
+			var ks []string
+			for k := range tg.bases[heap] {
+				ks = append(ks, k)
+			}
+			sort.Strings(ks)
+			for _, k := range ks {
+				if pt, ok := pre.vars[k]; ok {
+					lf.refs = append(lf.refs, SRef(pt))
+				}
+			}
+			if v.curLoopState.frame == nil {
+				v.curLoopState.frame = map[string]*loopFrame{}
+			}
+			v.curLoopState.frame[heap] = lf
+		}
+	}()
 	if !strings.HasPrefix(heap, "HS_") {
 		// pointer cells / fields: function-level frame only
 		v.funcFrame(guard, heap, srt, nh)
@@ -1632,4 +1671,35 @@ func (v *FnVC) loopBack(l *Loop, st *State, cond *Term) {
 
 func (v *FnVC) ghostAssignedIn(l *Loop, name string) bool {
 	return true
+}
+
+// loopFrameCheck: a store inside a loop whose havoc assumed a loop-level frame
+// must hit one of the loop's base arrays or memory allocated since loop entry.
+// skip (optional) is a condition under which nothing is written.
+func (v *FnVC) loopFrameCheck(heap string, ref *Term, skip *Term, pos token.Pos) {
+	if v.cfg == nil || v.curBlock == nil {
+		return
+	}
+	for _, l := range v.cfg.Loops {
+		if !l.Body[v.curBlock] {
+			continue
+		}
+		ls := v.loopInfo[l]
+		if ls == nil || ls.frame == nil {
+			continue
+		}
+		lf := ls.frame[heap]
+		if lf == nil {
+			continue
+		}
+		alts := []*Term{Ge(ref, lf.alloc)}
+		if skip != nil {
+			alts = append(alts, skip)
+		}
+		for _, r := range lf.refs {
+			alts = append(alts, Eq(ref, r))
+		}
+		v.oblige("frame", fmt.Sprintf("loop-frame#%d@%s", v.ord("lframe"), v.loopName(l)), v.curGuard, Or(alts...), v.posOf(pos),
+			"store inside the loop targets one of the loop's own arrays or memory allocated since loop entry")
+	}
 }
